@@ -38,7 +38,10 @@ GNext ==
             \/ RDrainLoad /\ Step("R", "RDrainLoad", "exec.drain.load", FALSE)
             \/ RPopped /\ Step("R", "RPopped", "exec.drain.popped", FALSE)
             \/ RDrainSub /\ Step("R", "RDrainSub", "exec.drain.sub", FALSE)
-            \/ RRunTask /\ Step("R", "RRunTask", "exec.state.unschedule", FALSE)
+            \/ RRunTask /\ Step("R", IF lastOv' THEN "RRunTaskOv" ELSE "RRunTask", "exec.state.unschedule", FALSE)
+            \/ ROvEnter /\ Step("R", "ROvEnter", "drv.wait.enter", FALSE)
+            \/ ROvLeave /\ Step("R", "ROvLeave", "drv.wait.leave", FALSE)
+            \/ ROvClear /\ Step("R", "ROvClear", "notify.clear", FALSE)
             \/ RReset /\ Step("R", "RReset", "awake.reset", FALSE)
             \/ RArm /\ Step("R", "RArm", "iour.arm_notifier", FALSE)
             \/ REnter /\ Step("R", "REnter", "drv.wait.enter", inKernel')
@@ -57,5 +60,5 @@ GSpec == GInit /\ [][GNext]_gvars
 Done == (AllSeen \/ Len(hist) >= MaxLen \/ Stuck) /\ ~Internal
 EmitInv == Done => PrintT(<<"REPLAY", ToJson([driver |-> Driver, mode |-> Mode, qcap |-> QCap,
                                               targets |-> [w1 |-> Target[w1], w2 |-> Target[w2]],
-                                              tasks |-> TaskSeq, complete |-> AllSeen, stuck |-> Stuck, steps |-> hist])>>)
+                                              tasks |-> TaskSeq, overflow |-> Overflow, complete |-> AllSeen, stuck |-> Stuck, steps |-> hist])>>)
 =============================================================================
